@@ -760,6 +760,10 @@ class SSHTransportBase(protocol.Protocol):
                         return
                     i = lines.index(p)
                     self.buf = b"\n".join(lines[i + 1 :])
+            if not self.gotVersion:
+                # Only lines preceding the version string (RFC 4253 section
+                # 4.2) have arrived so far; they are not binary packets.
+                return
         packet = self.getPacket()
         while packet:
             messageNum = ord(packet[0:1])
